@@ -1188,3 +1188,19 @@ def _(vm, a, ci):
         if truth(vm, r.fields[1]): raise PanicEdge('panic', f'attempt to {op.lower()} with overflow')
         vm.ref_set(a[0], r.fields[0]); return UNIT
     vm.ref_set(a[0], vm.binop(op, x, y, ty)); return UNIT
+
+
+def _int_sum(t):
+    @trait((t, 'Sum', 'sum'))
+    def _(vm, a, ci):
+        from .std_iter import it_next
+        acc = 0
+        while True:
+            r = it_next(vm, a[0])
+            if r is None: return acc
+            s = vm.binop('AddWithOverflow', acc, D(vm, r[0]), t)
+            if truth(vm, s.fields[1]): raise PanicEdge('panic', 'attempt to add with overflow (Iterator::sum)')
+            acc = s.fields[0]
+
+
+for _t in ('usize', 'u32', 'u64', 'isize', 'i32', 'i64'): _int_sum(_t)
